@@ -233,3 +233,8 @@ func vFieldName(p interface{}, i int) string {
 func vScanner(lines []string, n int) *bufio.Scanner {
 	return bufio.NewScanner(strings.NewReader(strings.Join(lines[:n], "\n") + "\n"))
 }
+
+// select-model observers (meaningful under the executor only; dispatcher harnesses are replayed in the interpreter)
+func vRecvCount(kind string) int                 { return 0 }
+func vRecvFlagCount(field string, want bool) int { return 0 }
+func vLastOut() string                           { return "" }
